@@ -101,12 +101,16 @@ def approximator_cases(draw):
         "h_mant": draw(st.sampled_from([1.0, 2.0, 5.0])),
         "h_exp": draw(st.integers(-30, -8)) if method == "cs" else draw(st.integers(-8, -4)),
         "steps": draw(st.one_of(st.none(), _lst(st.sampled_from([0.5, 1.0, 2.0, 4.0]), n))),
-        "step_in_constructor": draw(st.booleans()),
+        "step_in_constructor": False,
+        # step given to the constructor: class default, the step itself (none per call), or ANOTHER scalar / array
+        # while the step to be used is passed to f_gradient
+        "ctor": draw(st.sampled_from(["default", "same", "other_scalar", "other_scalar", "other_array"])),
+        "ctor_mult": draw(_lst(st.sampled_from([0.01, 0.1, 3.0, 10.0, 100.0]), n)),
         "subset": draw(_lst(st.booleans(), n)) if n >= 2 and draw(st.booleans()) else None,
         "explicit_all": draw(st.booleans()),
         "space": draw(st.sampled_from(["none", "plain", "plain", "normalized"])),
         "split": draw(st.integers(1, 3)), "inf_ub": draw(st.integers(0, 7)),
-        "parallel": draw(st.sampled_from(["no"] * 16 + ["processes", "threads"])),
+        "parallel": draw(st.sampled_from(["no"] * 12 + ["processes"] + ["threads"] * 5)),
     }
     return p
 
@@ -137,6 +141,9 @@ def discipline_cases(draw):
         "indices_in": draw(_lst(idx, n_in)), "indices_out": draw(_lst(idx, n_out)), "use_indices": draw(st.booleans()),
         "wrong": [draw(st.integers(0, 20)), draw(st.integers(0, 20))], "grammar": draw(st.sampled_from(["JSON", "Simple"])),
         "defaults": draw(st.sampled_from(["same", "same", "same_no_input_data", "other", "none"])),
+        # cache of the discipline: the default one, or set_cache(type, tolerance) with a tolerance far above the step
+        "cache": draw(st.sampled_from(["default", "SimpleCache", "SimpleCache", "MemoryFullCache", "MemoryFullCache", "none"])),
+        "cache_tol": draw(st.sampled_from([0.0, 1e-3, 1e-2, 0.1])),
     }
 
 
@@ -319,8 +326,20 @@ def case_approximator(p, ctx):
     if with_space:
         kwargs = {"design_space": space, "normalize": p["space"] == "normalized"}
     step_arg = steps.copy() if lay["per_component"] else lay["h0"]
-    in_constructor = p["step_in_constructor"] and not (method == "cs" and lay["per_component"])
-    approx = cls(func, step=step_arg if in_constructor else None, **kwargs)
+    ctor = p.get("ctor") or ("same" if p["step_in_constructor"] else "default")
+    if method == "cs" and ctor == "other_array":
+        ctor = "other_scalar"  # the step setter of ComplexStep takes a number
+    in_constructor = ctor == "same" and not (method == "cs" and lay["per_component"])
+    if in_constructor:
+        ctor_step = step_arg
+    elif ctor == "other_scalar":
+        ctor_step = lay["h0"] * p["ctor_mult"][0]
+    elif ctor == "other_array":
+        ctor_step = np.array([lay["h0"] * p["ctor_mult"][j] for j in sel])
+    else:
+        ctor_step = None
+    ctx.cls("constructor_step_" + ("same" if in_constructor else ctor if ctor != "same" else "default"))
+    approx = cls(func, step=ctor_step, **kwargs)
     x_indices = sel if (lay["strict"] or p["explicit_all"]) else ()
     x_before = x.copy()
     with warnings.catch_warnings():
@@ -361,7 +380,7 @@ def case_approximator(p, ctx):
                       f"{method}: the function was evaluated at {over[0][0]!r} beyond the upper bound {lay['ub_w']!r} (component {over[0][1]})" if over else "", point=x)
     # ---- parallel == serial
     if p["parallel"] != "no":
-        par = cls(func, step=step_arg if in_constructor else None, parallel=True, n_processes=2, use_threading=p["parallel"] == "threads", **kwargs)
+        par = cls(func, step=ctor_step, parallel=True, n_processes=2, use_threading=p["parallel"] == "threads", **kwargs)
         with warnings.catch_warnings():
             warnings.simplefilter("ignore", RuntimeWarning)
             grad_par = par.f_gradient(x, None if in_constructor else step_arg, x_indices)
@@ -416,7 +435,13 @@ def make_discipline(p, wrong_entry):
                     c += isize
                 r += osize
 
-    return HarnessDiscipline()
+    disc = HarnessDiscipline()
+    cache = p.get("cache", "default")
+    if cache == "none":
+        disc.set_cache(Discipline.CacheType.NONE)
+    elif cache != "default":
+        disc.set_cache(Discipline.CacheType(cache), tolerance=p.get("cache_tol", 0.0))
+    return disc
 
 
 def resolve_indices(code, size):
@@ -456,7 +481,8 @@ def case_discipline(p, ctx):
     sel_out = [nm for nm, keep in zip(out_names, p["out_subset"] or [True] * len(out_names)) if keep] or list(out_names)
     if p["reverse_names"]:
         sel_in, sel_out = sel_in[::-1], sel_out[::-1]
-    ctx.cls("disc_" + p["action"], "disc_" + method)
+    ctx.cls("disc_" + p["action"], "disc_" + method, "disc_cache_" + p.get("cache", "default")
+            + ("_with_tolerance" if p.get("cache", "default") not in ("default", "none") and p.get("cache_tol", 0.0) > 0 else ""))
     size_of = dict(zip(in_names + out_names, in_sizes + out_sizes))
 
     # Inputs that are not differentiated are read from the defaults by the approximation: a strict subset of
